@@ -171,20 +171,18 @@ func (rs *runState) send(kind string, ci, si, pi, rows int) (dataMsg, error) {
 	uid := rs.nextUID
 	rs.nextUID++
 	rs.mu.Unlock()
-	ts := src.TS()
-	var m msgstream.TsMsg
-	switch kind {
-	case "insert":
-		m = src.InsertMsg(c, si, c.Parts[pi], uid, ts, rows)
-	case "delete":
-		m = src.DeleteMsg(c, si, c.Parts[pi], uid, ts, []int64{uid*1000 + 1})
-	case "droppart":
-		m = src.DropPartitionMsg(c, c.Parts[pi], uid, ts)
-	case "dropcoll":
-		m = src.DropCollectionMsg(c, uid, ts)
-	}
 	p := c.Shards[si].PChannel
-	ids, err := src.Send(p, m)
+	ids, ts, err := src.SendStamped(p, func(ts uint64) msgstream.TsMsg {
+		switch kind {
+		case "delete":
+			return src.DeleteMsg(c, si, c.Parts[pi], uid, ts, []int64{uid*1000 + 1})
+		case "droppart":
+			return src.DropPartitionMsg(c, c.Parts[pi], uid, ts)
+		case "dropcoll":
+			return src.DropCollectionMsg(c, uid, ts)
+		}
+		return src.InsertMsg(c, si, c.Parts[pi], uid, ts, rows)
+	})
 	if err != nil {
 		return dataMsg{}, err
 	}
